@@ -108,7 +108,11 @@ static __attribute__((noinline)) void check_steps(std::pair<It, It> &pr, const R
   }
   for (int j = 0; j < total; ++j) if (j < b) --it;
   if (k < ml * len) {
+#ifdef C05_SELFTEST   /* deliberately wrong oracle: the check must FAIL (harness self-test, never part of a job) */
+    const int p = k - b + (b == 2 ? 1 : 0);
+#else
     const int p = k - b;
+#endif
     v_assert(it.valid() && (*it).idx() == g_obs[p % len] && it.lap() == p / len, "C05 steps: b decrements after k increments lead to position k - b (cur_handle, lap, valid)");
   }
 }
